@@ -7235,8 +7235,10 @@ pub(crate) fn eval(env: &mut Env, session: &Session) -> Result<Value, EvalError>
                 break;
             }
 
-            // Check that the value matches the return type.
-            let return_value = env.pop_value().expect("Should have a value");
+            // Check that the value matches the return type. The last
+            // expression may not have produced a value, e.g. after
+            // `:replace continue` inside a call.
+            let return_value = env.pop_value().unwrap_or_else(Value::unit);
 
             let type_bindings = env.current_frame().type_bindings.clone();
             if let Some(return_hint) = &env.current_frame().return_hint {
